@@ -3,7 +3,8 @@
     [run] is [fold_left step_state] from [init]; [log] is the ghost history of all inputs and
     outputs; valid, vals, proposer, mkblock, cfg and me are arbitrary. *)
 From Coq Require Import List ZArith NArith Bool.
-From Kardia Require Import C03.Node C03.Spec C03.ProofsMono C03.ProofsInv C03.ProofsValid C03.ProofsLock C03.Proofs C03.Open C03.ToC01 C03.ProofsHalt.
+From Kardia Require Import C03.Node C03.Spec C03.ProofsMono C03.ProofsInv C03.ProofsValid C03.ProofsLock C03.Proofs C03.Open C03.ToC01 C03.ProofsHalt C03.SourceTie.
+From Kardia Require C02.Model C02.Proofs C03.Validate C03.ProofsValidate C03.ProofsExtension.
 Import ListNotations.
 Local Open Scope N_scope.
 
@@ -127,3 +128,89 @@ Print Assumptions C03_polround_check_is_dead.
 Theorem C03_no_halt_under_one_byzantine_proposer_refuted : ~ C03_no_halt_statement.
 Proof. exact no_halt_refuted. Qed.
 Print Assumptions C03_no_halt_under_one_byzantine_proposer_refuted.
+
+(** Source tie: the validation model (validateBlock, MedianTime/WeightedMedian, Commit.ValidateBasic)
+    and the guards of the node model (step-function entry guards, POL sanity check, unlock rule,
+    stale-lock scan bound, catch-up limit, ticker filter, handleTimeout) are the expressions that
+    /verif/go2coq regenerates from the Go sources on every check (Generated/C03Source.v), on the
+    operands the [_atoms] lemmas of SourceTie.v pin. *)
+Theorem C03_source_tie : C03_source_tie_statement.
+Proof. exact C03_source_tie_proof. Qed.
+Print Assumptions C03_source_tie.
+
+(** "Valid extension of its own chain", spelled out: validateBlock (Validate.v, transcribed from
+    kai/state/cstate/validation.go and tied to the source by C03_source_tie) accepts a block exactly
+    when it has the right height (last height + 1, the initial height for the first block) and parent
+    id, the application hash and both validator-set hashes of the node's own state, a last commit
+    that is empty in the first block and otherwise passes VerifyCommit against the previous
+    validator set for (chain id, parent id, height - 1), a time equal to the genesis time in the
+    first block and otherwise strictly after the last block time and equal to MedianTime of that
+    commit, at most the allowed number of evidence items, a proposer of the current set, and passes
+    ValidateBasic and the evidence pool. *)
+Theorem C03_validate_block_exact :
+  forall st b, Validate.validate_block st b = Validate.VOk <-> ProofsValidate.valid_extension st b.
+Proof. intros st b. split; [apply ProofsValidate.validate_block_sound | apply ProofsValidate.validate_block_complete]. Qed.
+Print Assumptions C03_validate_block_exact.
+
+(** The last commit of an accepted block after the first one names the parent id and height and
+    carries valid precommit signatures of validators of the previous set (each in its own slot)
+    holding more than two thirds of that set's power (with C02's VerifyCommit theorem). *)
+Theorem C03_accepted_commit_has_quorum :
+  forall st b c,
+    Validate.validate_block st b = Validate.VOk -> Validate.vb_lc b = Some c ->
+    C02.Proofs.wf_vals (Validate.ch_last_vals st) ->
+    (Validate.ch_initial st < Validate.vh_height (Validate.vb_hdr b))%Z -> (1 <= Validate.ch_initial st)%Z ->
+    (Validate.vh_height (Validate.vb_hdr b) < Int64.two64)%Z ->
+    let hp := Validate.z_to_N (Validate.vh_height (Validate.vb_hdr b) - 1) in
+    C02.Model.c_height c = hp /\ C02.Model.c_bid c = Validate.ch_last_bid st /\
+    length (C02.Model.c_sigs c) = length (Validate.ch_last_vals st) /\
+    (2 * C02.Proofs.sum_powers (Validate.ch_last_vals st)
+     < 3 * C02.Proofs.signed_power (Validate.ch_id st) hp (C02.Model.c_round c) (Validate.ch_last_bid st)
+                                    (Validate.ch_last_vals st) (C02.Model.c_sigs c))%Z.
+Proof. exact ProofsValidate.accepted_commit_has_quorum. Qed.
+Print Assumptions C03_accepted_commit_has_quorum.
+
+(** The prescribed block time is a weighted median: MedianTime returns one of the timestamps of the
+    non-absent commit slots that name a validator; the slots strictly before it weigh at most half
+    of the counted power and the slots at or before it at least half (powers non-negative, total
+    within int64 — C12's cap). *)
+Theorem C03_block_time_is_weighted_median :
+  forall c vals t,
+    Forall (fun e => (0 <= snd e)%Z) (ProofsValidate.entries_of vals (C02.Model.c_sigs c)) ->
+    (ProofsValidate.wtotal (ProofsValidate.entries_of vals (C02.Model.c_sigs c)) <= Int64.max_int64)%Z ->
+    Validate.median_time c vals = Some t ->
+    let l := ProofsValidate.entries_of vals (C02.Model.c_sigs c) in
+    In t (map fst l) /\
+    (ProofsValidate.wsum (fun x => (x <? t)%Z) l <= ProofsValidate.wtotal l / 2
+     <= ProofsValidate.wsum (fun x => (x <=? t)%Z) l)%Z.
+Proof. exact ProofsValidate.median_time_spec. Qed.
+Print Assumptions C03_block_time_is_weighted_median.
+
+(** The executor's validation cache (BlockExecutor.ValidateBlock / validationKey / the reset in
+    ApplyBlock) is transparent: over any sequence of validations and block applications, every
+    answer is validateBlock's answer for the chain state current at that moment — unless two
+    different blocks that both pass ValidateBasic share a validation key (a hash collision). *)
+Theorem C03_validation_cache_transparent :
+  forall (bhash : Validate.vblock -> N) st ops,
+    snd (Validate.xrun bhash (st, []) ops) = ProofsValidate.xspec st ops \/ ProofsValidate.key_collision bhash.
+Proof. exact ProofsValidate.cache_transparent_from_start. Qed.
+Print Assumptions C03_validation_cache_transparent.
+
+(** The property's last sentence in full: with [valid h b] instantiated by validateBlock on the
+    node's own chain state at height h ([st h]) and the decoded block ([dec b]), every non-nil vote
+    (prevote or precommit) the node signs and every block it commits is a block it had been given in
+    full that is a valid extension of its own chain in the sense of C03_validate_block_exact. *)
+Theorem C03_votes_and_commits_extend_own_chain :
+  forall (st : N -> Validate.chain) (dec : block -> Validate.vblock) vals proposer mkblock cfg me,
+    (forall h, Forall (fun p => (0 <= p)%Z) (vals h)) ->
+    forall ins : list input,
+      let l := log (run (ProofsExtension.valid_by_code st dec) vals proposer mkblock cfg me ins) in
+      (forall post pre v,
+          l = post ++ EvOut (SignVote v) :: pre -> bid_is_zero (v_bid v) = false ->
+          exists b, held (received pre) b /\ b_hash b = bh (v_bid v)
+                    /\ ProofsValidate.valid_extension (st (v_height v)) (dec b))
+      /\ (forall post pre h b r,
+             l = post ++ EvOut (Commit h b r) :: pre ->
+             ProofsValidate.valid_extension (st h) (dec b)).
+Proof. exact ProofsExtension.votes_and_commits_extend_own_chain. Qed.
+Print Assumptions C03_votes_and_commits_extend_own_chain.
